@@ -2,4 +2,6 @@
 pub mod runner;
 pub mod util;
 pub mod oracle;
+pub mod model;
+pub mod gen;
 pub mod props;
